@@ -198,8 +198,14 @@ pub fn generate(rng: &mut Rng, tier: Tier) -> Plan {
             // numbers
             let k = 1 + rng.below(2) as u8;
             let moderate = rng.chance(0.5);
-            let nv = rng.usize_in(0, 4);
-            let names = odd_names(rng, nv.max(1));
+            // mostly a handful of variables; sometimes many (size thresholds)
+            let many = rng.chance(0.06);
+            let nv = if many { rng.usize_in(20, 150) } else { rng.usize_in(0, 4) };
+            let names = if many {
+                (0..nv).map(|i| format!("v{}", i)).collect()
+            } else {
+                odd_names(rng, nv.max(1))
+            };
             let mut f = |r: &mut Rng| {
                 if moderate {
                     awkward(r, 1e-3, 1e3, true)
